@@ -215,7 +215,12 @@ def judge_spec(sp, res=None, o_mod=None):
             msg = str(out.exc)[:100]
             mode = "raises:" + out.excname + ("(custom metaclass)" if "custom metaclass" in msg else "") + ("(base)" if stage == "base" else "")
             return [("decorate", mode, f"@classes.slotted(dict={sp['dict']}, weakref={sp['weakref']}) on the dataclass raises {out.excname}: {msg}")], False
-        V = SM.judge(o_mod.C, s_mod.C, info_of(sp), o_mod=o_mod, s_mod=s_mod, full=True, count=count)
+        try:
+            V = SM.judge(o_mod.C, s_mod.C, info_of(sp), o_mod=o_mod, s_mod=s_mod, full=True, count=count)
+        except SM.OriginalFails:
+            if sp["base"].startswith("slotted"):
+                return None, True  # the ORIGINAL child of a slotted base misbehaves: base fixture broken (covered by base=none)
+            raise
         if not STRICT_INHERITED_SLOTS:
             V = [v for v in V if v[:2] != ("slots", "extra:inherited-field")]
         return V, True
